@@ -90,6 +90,36 @@ def lit_val(v) -> str:
     raise Refused(f"constant {v!r}")
 
 
+def is_list_map_class(cls) -> bool:
+    """a class whose instances are nothing but a `collections.defaultdict(list)` reached through `__getitem__` — by the shape of its
+    `__init__` and `__getitem__` (anything else in the class makes this false)"""
+    import inspect
+    import textwrap
+    if not isinstance(cls, type):
+        return False
+    try:
+        tree = ast.parse(textwrap.dedent(inspect.getsource(cls)))
+    except (OSError, TypeError, SyntaxError):
+        return False
+    body = [n for n in tree.body[0].body if not (isinstance(n, ast.Expr) and isinstance(n.value, ast.Constant))]
+    if [getattr(n, "name", None) for n in body] != ["__init__", "__getitem__"]:
+        return False
+    init = [n for n in body[0].body if not (isinstance(n, ast.Expr) and isinstance(n.value, ast.Constant))]
+    get = [n for n in body[1].body if not (isinstance(n, ast.Expr) and isinstance(n.value, ast.Constant))]
+    if len(init) != 1 or not isinstance(init[0], (ast.Assign, ast.AnnAssign)) or ast.unparse(init[0].value) != "collections.defaultdict(list)":
+        return False
+    tgt = init[0].target if isinstance(init[0], ast.AnnAssign) else init[0].targets[0]
+    if ast.unparse(tgt) != "self._dict":
+        return False
+    k = body[1].args.args[1].arg
+    if len(get) != 1 or not isinstance(get[0], ast.Return):
+        return False
+    r = get[0].value
+    if isinstance(r, ast.Call) and dotted(r.func) in ("typ.cast", "typing.cast") and len(r.args) == 2:
+        r = r.args[1]
+    return ast.unparse(r) in (f"self._dict.__getitem__({k})", f"self._dict[{k}]")
+
+
 class Fn:
     def __init__(self, mod, qual):
         self.fn, self.glob = funcdef(mod, qual)
@@ -107,9 +137,8 @@ class Fn:
             elif isinstance(n, ast.NamedExpr):
                 raise Refused("walrus")
             elif isinstance(n, (ast.With, ast.Global, ast.Nonlocal, ast.Delete, ast.Yield, ast.YieldFrom, ast.Await,
-                                ast.ListComp, ast.SetComp, ast.DictComp, ast.GeneratorExp, ast.Match)):
-                if not isinstance(n, (ast.ListComp, ast.GeneratorExp)) or not self._in_warning(n):
-                    raise Refused(type(n).__name__)
+                                ast.SetComp, ast.DictComp, ast.Match)):
+                raise Refused(type(n).__name__)
             for t in tg:
                 for m in ast.walk(t):
                     if isinstance(m, ast.Name) and isinstance(m.ctx, ast.Store) and m.id not in assigned:
@@ -117,6 +146,17 @@ class Fn:
         self.locals = sorted(x for x in assigned if x not in self.params)
         self.uses_it = False
         self.uses_log = False
+        # locals that only ever hold a fresh map-of-lists (so that `x[k].append(v)` has the meaning `appendAt` gives it)
+        self.listmaps = set()
+        for n in own_nodes(self.fn):
+            if isinstance(n, ast.Assign) and len(n.targets) == 1 and isinstance(n.targets[0], ast.Name) and isinstance(n.value, ast.Call) \
+                    and not n.value.args and not n.value.keywords and is_list_map_class(self.glob.get(dotted(n.value.func) or "")):
+                self.listmaps.add(n.targets[0].id)
+        for n in own_nodes(self.fn):
+            if isinstance(n, (ast.Assign, ast.AnnAssign)) and n.value is not None:
+                for t in (n.targets if isinstance(n, ast.Assign) else [n.target]):
+                    if isinstance(t, ast.Name) and t.id in self.listmaps and not (isinstance(n.value, ast.Call) and is_list_map_class(self.glob.get(dotted(n.value.func) or ""))):
+                        self.listmaps.discard(t.id)
         self._alias_check()
 
     def _in_warning(self, node) -> bool:
@@ -134,6 +174,10 @@ class Fn:
                     and n.value.func.attr in ("append", "extend", "insert", "pop", "clear", "sort", "reverse", "remove") \
                     and isinstance(n.value.func.value, ast.Name):
                 mutated.add(n.value.func.value.id)
+            if isinstance(n, ast.Expr) and isinstance(n.value, ast.Call) and isinstance(n.value.func, ast.Attribute) \
+                    and n.value.func.attr == "append" and isinstance(n.value.func.value, ast.Subscript) \
+                    and isinstance(n.value.func.value.value, ast.Name):
+                mutated.add(n.value.func.value.value.id)
             if isinstance(n, (ast.Assign, ast.AugAssign)):
                 for t in (n.targets if isinstance(n, ast.Assign) else [n.target]):
                     if isinstance(t, ast.Subscript) and isinstance(t.value, ast.Name):
@@ -162,14 +206,15 @@ class Fn:
             if p in mutated:
                 raise Refused(f"parameter `{p}` is mutated")
 
-    @staticmethod
-    def _fresh(v) -> bool:
+    def _fresh(self, v) -> bool:
         if isinstance(v, (ast.List,)):
+            return True
+        if isinstance(v, ast.Call) and not v.args and not v.keywords and is_list_map_class(self.glob.get(dotted(v.func) or "")):
             return True
         if isinstance(v, ast.BinOp) and isinstance(v.op, ast.Mult) and isinstance(v.left, ast.List):
             return True
         if isinstance(v, ast.Call) and dotted(v.func) in ("list", "_SustainList") and len(v.args) <= 1:
-            return all(Fn._fresh(a) for a in v.args)
+            return all(self._fresh(a) for a in v.args)
         return False
 
     # ------------------------------------------------------------------ expressions
@@ -243,7 +288,27 @@ class Fn:
             return f"(.mkList {self.spine([self.expr(e) for e in node.elts])})"
         if isinstance(node, ast.Call):
             return self.call(node)
+        if isinstance(node, ast.ListComp):
+            return self.gen("comp", node)
         raise Refused(f"expression {type(node).__name__}: {ast.unparse(node)[:60]}")
+
+    def gen(self, form, node) -> str:
+        """`<form>(elt for v in it if c …)`: one `for`, a plain name as target"""
+        if len(node.generators) != 1 or node.generators[0].is_async or not isinstance(node.generators[0].target, ast.Name):
+            raise Refused("generator form")
+        g = node.generators[0]
+        v = g.target.id
+        it = self.expr(g.iter)
+        self.params.append(v)  # visible inside the generator only
+        try:
+            conds = [self.expr(c) for c in g.ifs]
+            c = "(.lit (.bool true))"
+            for t in reversed(conds):
+                c = t if c == "(.lit (.bool true))" else f"(.and {t} {c})"
+            e = self.expr(node.elt)
+        finally:
+            self.params.pop()
+        return f"(.{form} {lean_str(v)} {it} {c} {e})"
 
     def call(self, node) -> str:
         f = dotted(node.func)
@@ -262,6 +327,33 @@ class Fn:
                 return f"(.range {lo} {self.expr(args[-1])})"
             if obj is enumerate and len(args) == 1 and not kws:
                 return f"(.enumerate {self.expr(args[0])})"
+            if obj is tuple and len(args) == 1 and not kws:
+                return f"(.toTup {self.expr(args[0])})"
+            if obj is isinstance and len(args) == 2 and not kws and isinstance(args[1], ast.Name) and args[1].id == "int":
+                return f"(.isInt {self.expr(args[0])})"
+            if obj in (any, all, next, max) and len(args) == 1 and not kws and isinstance(args[0], ast.GeneratorExp):
+                return self.gen({any: "anyGen", all: "allGen", next: "nextGen", max: "maxGen"}[obj], args[0])
+            if obj is max and len(args) == 1 and set(k.arg for k in kws) == {"key"} and isinstance(kws[0].value, ast.Lambda) \
+                    and len(kws[0].value.args.args) == 1:
+                v = kws[0].value.args.args[0].arg
+                it = self.expr(args[0])
+                self.params.append(v)
+                try:
+                    key = self.expr(kws[0].value.body)
+                finally:
+                    self.params.pop()
+                return f"(.maxKey {lean_str(v)} {it} {key})"
+            if obj is filter and len(args) == 2 and not kws and isinstance(args[0], ast.Lambda) and len(args[0].args.args) == 1:
+                v = args[0].args.args[0].arg
+                it = self.expr(args[1])
+                self.params.append(v)
+                try:
+                    c = self.expr(args[0].body)
+                finally:
+                    self.params.pop()
+                return f"(.comp {lean_str(v)} {it} {c} (.var {lean_str(v)}))"
+            if is_list_map_class(obj) and not args and not kws:
+                return "(.lit (.list .nil))"  # an empty map from keys to lists, entries in insertion order
             import typing
             if obj is typing.cast and len(args) == 2 and not kws:
                 return self.expr(args[1])
@@ -279,7 +371,9 @@ class Fn:
             name = "." + node.func.attr + ("(" + ",".join(k.arg + "=" for k in kws) + ")" if kws else "")
             return f"(.call {lean_str(name)} {self.spine([self.expr(node.func.value)] + [self.expr(a) for a in args] + [self.expr(k.value) for k in kws])})"
         if isinstance(node.func, ast.Name) and self.is_local(node.func.id):
-            raise Refused("call of a local")
+            # a call of a value held in a local (`cls(x)`): the external call `()` with the value as first argument
+            name = "()" + ("(" + ",".join(k.arg + "=" for k in kws) + ")" if kws else "")
+            return f"(.call {lean_str(name)} {self.spine([self.expr(node.func)] + [self.expr(a) for a in args] + [self.expr(k.value) for k in kws])})"
         raise Refused("call " + ast.unparse(node)[:60])
 
     # ------------------------------------------------------------------ statements
@@ -323,6 +417,10 @@ class Fn:
             if isinstance(c.func, ast.Attribute) and c.func.attr == "append" and isinstance(c.func.value, ast.Name) \
                     and self.is_local(c.func.value.id) and len(c.args) == 1 and not c.keywords:
                 return f"(.append {lean_str(c.func.value.id)} {self.expr(c.args[0])})"
+            if isinstance(c.func, ast.Attribute) and c.func.attr == "append" and isinstance(c.func.value, ast.Subscript) \
+                    and isinstance(c.func.value.value, ast.Name) and self.is_local(c.func.value.value.id) and len(c.args) == 1 and not c.keywords \
+                    and not isinstance(c.func.value.slice, ast.Slice) and c.func.value.value.id in self.listmaps:
+                return f"(.appendAt {lean_str(c.func.value.value.id)} {self.expr(c.func.value.slice)} {self.expr(c.args[0])})"
             if dotted(c.func) == "logger.warning":
                 self.uses_log = True
                 return "(.warn (.lit .none))"
@@ -377,6 +475,9 @@ FUNCTIONS = [
     ("partitionLines", "chart", "Chart._partition_lines_by_data_section"),
     ("syncPostInit", "sync", "SyncTrack.__post_init__"),
     ("bpmEventsPostInit", "sync", "BPMEvents.__post_init__"),
+    ("complexSustain", "instrument", "complex_sustain_from_parsed_datas"),
+    ("refinedSustainTuple", "instrument", "_refined_sustain_tuple"),
+    ("lastNoteEndTimestamp", "instrument", "InstrumentTrack.last_note_end_timestamp"),
 ]
 
 
@@ -389,6 +490,8 @@ def gen_imp() -> str:
         try:
             f = Fn(mod, qual)
             body = f.block(f.fn.body)
+            if f.uses_log:
+                body = f"(.seq (.assign \"$log\" (.mkList .enil))\n {body})"  # the warnings of this call, in order
             locs = f.locals + (["$it"] if f.uses_it else []) + (["$log"] if f.uses_log else [])
             L.append(f"/-- `chartparse.{mod}.{qual}` -/")
             L.append(f"def {lean}Params : List String := [{', '.join(lean_str(p) for p in f.params)}]")
